@@ -181,7 +181,13 @@ fn main() {
             real_main()
         })
         .expect("failed to spawn the main thread");
-    if handle.join().is_err() {
+    if let Err(p) = handle.join() {
+        let m = p.downcast_ref::<String>().cloned().or_else(|| p.downcast_ref::<&str>().map(|s| s.to_string())).unwrap_or_default();
+        #[cfg(feature = "arc")]
+        let at = conc::LAST_PANIC_LOCATION.lock().map(|l| l.clone()).unwrap_or_default();
+        #[cfg(not(feature = "arc"))]
+        let at = String::new();
+        eprintln!("main thread panicked: {m} @ {at}");
         std::process::exit(3);
     }
 }
